@@ -87,6 +87,7 @@ type FnCtx struct {
 	funDefs  []string
 	cloFrames map[ssa.Value]*Frame
 	ground   map[string]bool
+	localMaps map[string]bool
 }
 
 type retInfo struct {
